@@ -26,7 +26,7 @@ GFA_Q = ["str", "names", "lines", "validate", "line", "segment", "try_get_line",
          "segment_component", "counts", "linear_paths", "linear_path", "is_cut_link", "is_cut_segment",
          "headers", "collections", "fragments_for_external", "external_names", "info", "header_array_ops"]
 LINE_Q = ["str", "repr", "to_list", "tagnames", "get_all", "get_datatype", "validate", "validate_fields", "clone",
-          "eq", "diff", "field_to_s", "refstr", "all_references", "to_str_nocomment", "positional_fieldnames",
+          "eq", "diff", "diffscript", "field_to_s", "refstr", "all_references", "to_str_nocomment", "positional_fieldnames",
           "try_get", "is_connected", "version"]
 SEG_Q = ["dovetails", "neighbours", "containers", "contained", "edges", "relations_to", "str_wo_seq",
          "dovetails_of_end", "gaps_of_end", "coverage", "connectivity", "length", "end_relations",
@@ -182,6 +182,7 @@ def make_call(g, c):
             "clone": lambda: str(l.clone()),
             "eq": lambda: (l == other, l != other),
             "diff": lambda: l.diff(other) if other.record_type == l.record_type else None,
+            "diffscript": lambda: l.diffscript(other, "x"),
             "field_to_s": (lambda: l.field_to_s(fld, tag=fld in l.tagnames)) if fld else None,
             "refstr": l.refstr, "all_references": lambda: l.all_references if l.record_type != "P" else None,
             "to_str_nocomment": lambda: l.to_str(add_virtual_commentary=False),
